@@ -17,5 +17,6 @@ rm -f "$DEST"
 B=$( (go build ./... && go test -vet=off -count=1 ./...) >/tmp/vfy.$$.b 2>&1 && echo pass || echo FAIL)
 cd /; git -C /repo worktree remove --force $W; rm -f /tmp/vfy.$$.*
 echo "confirm: demo-on-pristine=$A suite-with-patch=$B demo-with-patch=$C"
-mkdir -p /tmp/mutroot.$$; cp /verif/known_findings.json /tmp/mutroot.$$/; cd /repo && git apply "$D/patch.diff" && (cd /verif && bin/oryxcheck -property $PROP -root /tmp/mutroot.$$ 2>&1 | grep -E "VIOLATION|rule=|^$PROP" | cut -c1-400); git -C /repo checkout -- . ; rm -rf /tmp/mutroot.$$
+trap 'git -C /repo checkout -- . 2>/dev/null; rm -rf /tmp/mutroot.$$' EXIT INT TERM
+mkdir -p /tmp/mutroot.$$; cp /verif/known_findings.json /tmp/mutroot.$$/; cd /repo && git apply "$D/patch.diff" && (cd /verif && timeout 2400 bin/oryxcheck -property $PROP -root /tmp/mutroot.$$ 2>&1 | grep -E "VIOLATION|rule=|^$PROP" | cut -c1-400); git -C /repo checkout -- . ; rm -rf /tmp/mutroot.$$
 git -C /repo status --short | head -3
